@@ -158,7 +158,7 @@ Proof.
   unfold udp4_probe, udp_segment, ip4_header, put16, hdr4, magic.
   set (id := udp4_id t).
   set (s0 := u16b sp ++ u16b dp ++ u16b (8 + len ([78; 83; 77; 78; 67] ++ [0] ++ u16b id)) ++ [0; 0] ++ [78; 83; 77; 78; 67] ++ [0] ++ u16b id).
-  set (v := cksum s0 _).
+  set (v := udp_ck (cksum s0 _)).
   assert (Es : takez 6 s0 ++ u16b v ++ dropz (6 + 2) s0 =
                [(sp / 256) mod 256; sp mod 256; (dp / 256) mod 256; dp mod 256; 0; 16; (v / 256) mod 256; v mod 256; 78; 83; 77; 78; 67; 0; (id / 256) mod 256; id mod 256])
     by (unfold s0, u16b; reflexivity).
